@@ -249,25 +249,50 @@ func verifC27Exec(op string) string {
 		seg := &recordstore.Segment{Fpath: p, Start: pa.Start}
 
 		var sb strings.Builder
-		ps, err := parseSegment(seg)
-		if err != nil {
-			sb.WriteString("list=err:" + verifC28ErrClassC27(err))
-		} else {
-			fmt.Fprintf(&sb, "list=%d", int64(ps.duration))
-		}
+		func() {
+			defer func() {
+				if r := recover(); r != nil {
+					sb.WriteString("list=panic:" + verifC27PanicClass(r))
+				}
+			}()
+			ps, err := parseSegment(seg)
+			if err != nil {
+				sb.WriteString("list=err:" + verifC28ErrClassC27(err))
+			} else {
+				fmt.Fprintf(&sb, "list=%d", int64(ps.duration))
+			}
+		}()
 
 		var buf bytes.Buffer
-		m := &muxerFMP4{w: &buf}
-		err = seekAndMux(conf.RecordFormatFMP4, []*recordstore.Segment{seg}, seg.Start, time.Hour, m)
-		if err != nil {
-			sb.WriteString(" get=err")
-		} else {
-			sb.WriteString(" get=ok")
-		}
+		func() {
+			defer func() {
+				if r := recover(); r != nil {
+					sb.WriteString(" get=panic:" + verifC27PanicClass(r))
+				}
+			}()
+			m := &muxerFMP4{w: &buf}
+			err := seekAndMux(conf.RecordFormatFMP4, []*recordstore.Segment{seg}, seg.Start, time.Hour, m)
+			if err != nil {
+				sb.WriteString(" get=err")
+			} else {
+				sb.WriteString(" get=ok")
+			}
+		}()
 		sb.WriteString(" served=" + verifC27Served(buf.Bytes()))
 		return sb.String()
 	}
 	return "bad-op"
+}
+
+func verifC27PanicClass(r any) string {
+	msg := fmt.Sprint(r)
+	switch {
+	case strings.Contains(msg, "integer divide by zero"):
+		return "div"
+	case strings.Contains(msg, "nil pointer dereference"):
+		return "nil"
+	}
+	return "other"
 }
 
 func verifC28ErrClassC27(err error) string {
@@ -292,6 +317,9 @@ func verifC27Served(out []byte) string {
 	}
 	var parts fmp4.Parts
 	if err := parts.Unmarshal(out[hl:]); err != nil {
+		if os.Getenv("VERIF_C27_DEBUG") != "" {
+			fmt.Fprintln(os.Stderr, "garbled:", err, len(out), hl)
+		}
 		return "garbled"
 	}
 	per := map[int][]string{}
